@@ -491,3 +491,228 @@ func TestVerif_C28_parallel(t *testing.T) {
 	defer admin.Close()
 	vh.Check(t, "inserts", 5, 25, func(rt *rapid.T) { parSequence(rt, srv, admin, rec) })
 }
+
+// ---------------------------------------------------------------------------------------
+// C28: generated bulk inserts racing with explicit ids placed at the live sequence
+
+const parRaceRule = "2-4 goroutine sessions (autocommit), each pinned to its own branch where possible, bulk-insert generated ids (multi-row statements of 40-200 rows) while 1-2 further sessions keep inserting EXPLICIT ids in ladders placed at the live sequence (the largest id any generator has reported so far: a few below it, at it, and 1..k above it, step 1 or 2) on yet another branch, all truly in parallel for a bounded number of statements. History invariant: no generating INSERT fails (a duplicate key there means a value was handed out twice), the ids read back from the rows are pairwise distinct over all sessions and branches, increasing inside a statement and from statement to statement of one session (LAST_INSERT_ID() names the first of each statement and increases), and every id generated by a statement that started after an explicit id e was acknowledged is > e. Non-trivial: at least one explicit insert at or above the live sequence succeeded while generators were running; distinct by the drawn parameters and outcome counts."
+
+type parRaceGen struct {
+	ids      []uint64
+	problems []string
+	envErr   string
+	stmts    int
+	retried  int
+}
+
+func parSeqRace(rt *rapid.T, srv *vsql.Server, admin *vsql.Session, rec *vh.Recorder, stmtsPerGen, maxExplicit int) {
+	dbn := srv.NewDBName()
+	admin.MustExec(rt, "CREATE DATABASE "+dbn)
+	defer admin.Exec("DROP DATABASE " + dbn)
+	typ := rapid.SampledFrom([]c28Type{{"INT", 2147483647}, {"BIGINT", 9223372036854775807}, {"INT UNSIGNED", 4294967295}}).Draw(rt, "type")
+	ng := rapid.IntRange(2, 4).Draw(rt, "generators")
+	ne := rapid.IntRange(1, 2).Draw(rt, "explicit_sessions")
+	rows := rapid.IntRange(40, 200).Draw(rt, "rows_per_statement")
+	ladderBelow := rapid.IntRange(0, 40).Draw(rt, "ladder_below")
+	ladderLen := rapid.IntRange(5, 60).Draw(rt, "ladder_len")
+	step := rapid.IntRange(1, 2).Draw(rt, "ladder_step")
+	branches := []string{"main", "b1", "b2", "b3", "b4"}
+	setup := txOpen(rt, srv, "setup", dbn)
+	defer setup.Close()
+	setup.MustExec(rt, "CREATE TABLE a (id "+typ.sql+" PRIMARY KEY AUTO_INCREMENT, v INT)")
+	setup.MustExec(rt, "CALL dolt_commit('-Am','init')")
+	for _, b := range branches[1:] {
+		setup.MustExec(rt, "CALL dolt_branch('"+b+"')")
+	}
+	genConn := make([]*vsql.Session, ng)
+	genBranch := make([]string, ng)
+	for i := range genConn {
+		genBranch[i] = branches[i%3] // main, b1, b2; the explicit sessions have b3 and b4 to themselves
+		genConn[i] = txOpen(rt, srv, fmt.Sprintf("G%d", i), dbn+"/"+genBranch[i])
+		defer genConn[i].Close()
+	}
+	expConn := make([]*vsql.Session, ne)
+	expBranch := make([]string, ne)
+	for i := range expConn {
+		expBranch[i] = []string{"b3", "b4"}[i] // never a generator's branch: an explicit id equal to an in-flight generated one there would be an ordinary commit conflict
+		expConn[i] = txOpen(rt, srv, fmt.Sprintf("E%d", i), dbn+"/"+expBranch[i])
+		defer expConn[i].Close()
+	}
+
+	var live atomic.Uint64   // largest generated id any generator has reported
+	var floor atomic.Uint64  // largest explicit id whose INSERT has been acknowledged
+	var running atomic.Int32 // generators still at work
+	var explicitOK, explicitAtOrAbove, explicitDup atomic.Int64
+	running.Store(int32(ng))
+	gens := make([]*parRaceGen, ng)
+	var wg sync.WaitGroup
+	for i := 0; i < ng; i++ {
+		wg.Add(1)
+		go func(i int) {
+			defer wg.Done()
+			defer running.Add(-1)
+			g := &parRaceGen{}
+			gens[i] = g
+			conn := genConn[i]
+			tag := (i + 1) * 10000000
+			var lastFirst uint64
+			for st := 0; st < stmtsPerGen; st++ {
+				f0 := floor.Load()
+				first := tag + 1
+				var b strings.Builder
+				b.WriteString("INSERT INTO a (v) VALUES ")
+				for k := 0; k < rows; k++ {
+					tag++
+					if k > 0 {
+						b.WriteByte(',')
+					}
+					fmt.Fprintf(&b, "(%d)", tag)
+				}
+				if err := conn.Exec(b.String()); err != nil {
+					if vsql.ErrCode(err) == 1213 {
+						g.retried++ // a commit conflict is an ordinary outcome; the statement left nothing behind
+						continue
+					}
+					g.problems = append(g.problems, fmt.Sprintf("G%d on %s: statement %d, a generating INSERT of %d rows failed: %v", i, genBranch[i], st, rows, err))
+					if vsql.ErrCode(err) != 1062 {
+						g.envErr = err.Error()
+					}
+					return
+				}
+				g.stmts++
+				li, err := conn.Query("SELECT LAST_INSERT_ID()")
+				if err != nil || len(li.Data) != 1 {
+					g.envErr = fmt.Sprintf("LAST_INSERT_ID: %v", err)
+					return
+				}
+				lid, _ := strconv.ParseUint(li.Data[0][0], 10, 64)
+				got, err := conn.Query(fmt.Sprintf("SELECT id FROM a WHERE v BETWEEN %d AND %d ORDER BY v", first, tag))
+				if err != nil || len(got.Data) != rows {
+					g.envErr = fmt.Sprintf("read back: %d rows, %v", len(got.Data), err)
+					return
+				}
+				for k, row := range got.Data {
+					id, _ := strconv.ParseUint(row[0], 10, 64)
+					if k == 0 && id != lid {
+						g.problems = append(g.problems, fmt.Sprintf("G%d: statement %d: LAST_INSERT_ID()=%d but the first row got id %d", i, st, lid, id))
+					}
+					if n := len(g.ids); n > 0 && id <= g.ids[n-1] {
+						g.problems = append(g.problems, fmt.Sprintf("G%d on %s: statement %d row %d: generated id %d after %d (the sequence went backwards)", i, genBranch[i], st, k, id, g.ids[n-1]))
+					}
+					if id <= f0 {
+						g.problems = append(g.problems, fmt.Sprintf("G%d on %s: statement %d: generated id %d although the explicit id %d had been acknowledged before the statement started", i, genBranch[i], st, id, f0))
+					}
+					g.ids = append(g.ids, id)
+				}
+				if lid <= lastFirst {
+					g.problems = append(g.problems, fmt.Sprintf("G%d: LAST_INSERT_ID() %d after %d", i, lid, lastFirst))
+				}
+				lastFirst = lid
+				top := g.ids[len(g.ids)-1]
+				for {
+					cur := live.Load()
+					if top <= cur || live.CompareAndSwap(cur, top) {
+						break
+					}
+				}
+				if len(g.problems) > 8 {
+					return
+				}
+			}
+		}(i)
+	}
+	expErr := make([]string, ne)
+	for j := 0; j < ne; j++ {
+		wg.Add(1)
+		go func(j int) {
+			defer wg.Done()
+			conn := expConn[j]
+			tag := (j + 1) * 1000000
+			n := 0
+			for running.Load() > 0 && n < maxExplicit {
+				cur := live.Load()
+				start := uint64(1)
+				if cur > uint64(ladderBelow) {
+					start = cur - uint64(ladderBelow)
+				}
+				for k := 0; k < ladderLen && running.Load() > 0 && n < maxExplicit; k++ {
+					e := start + uint64(k*step)
+					tag++
+					n++
+					seqBefore := live.Load()
+					err := conn.Exec(fmt.Sprintf("INSERT INTO a (id,v) VALUES (%d,%d)", e, tag))
+					switch {
+					case err == nil:
+						explicitOK.Add(1)
+						if e >= seqBefore {
+							explicitAtOrAbove.Add(1)
+						}
+						for {
+							f := floor.Load()
+							if e <= f || floor.CompareAndSwap(f, e) {
+								break
+							}
+						}
+					case vsql.ErrCode(err) == 1062:
+						explicitDup.Add(1)
+					default:
+						expErr[j] = err.Error()
+						return
+					}
+				}
+			}
+		}(j)
+	}
+	wg.Wait()
+	var problems []string
+	seen := map[uint64]int{}
+	total := 0
+	for i, g := range gens {
+		if g.envErr != "" && len(g.problems) == 0 {
+			rt.Fatalf("G%d: statement failed unexpectedly: %s", i, g.envErr)
+		}
+		problems = append(problems, g.problems...)
+		for _, id := range g.ids {
+			if j, dup := seen[id]; dup {
+				problems = append(problems, fmt.Sprintf("id %d was generated twice: by G%d (on %s) and G%d (on %s)", id, j, genBranch[j], i, genBranch[i]))
+			}
+			seen[id] = i
+			total++
+		}
+	}
+	for j, e := range expErr {
+		if e != "" {
+			rt.Fatalf("E%d: explicit INSERT failed with an unexpected error: %s", j, e)
+		}
+	}
+	desc := fmt.Sprintf("%s generators=%d explicit_sessions=%d rows/stmt=%d stmts/gen=%d ladder=[-%d..+%d step %d] -> generated=%d explicit ok=%d (at/above live sequence %d) dup=%d",
+		typ.sql, ng, ne, rows, stmtsPerGen, ladderBelow, ladderLen*step-ladderBelow, step, total, explicitOK.Load(), explicitAtOrAbove.Load(), explicitDup.Load())
+	if len(problems) > 0 {
+		if len(problems) > 12 {
+			problems = append(problems[:12], fmt.Sprintf("…(%d more)", len(problems)-12))
+		}
+		rt.Fatalf("%s\n%s", strings.Join(problems, "\n"), desc)
+	}
+	rec.Case(desc, explicitAtOrAbove.Load() > 0, fmt.Sprintf("generators=%d", ng), fmt.Sprintf("explicit_sessions=%d", ne))
+}
+
+func TestVerif_C28_race(t *testing.T) {
+	if !vh.Thorough() {
+		t.Skip("thorough tier only (a small dose runs inside TestVerif_C28 in the quick tier)")
+	}
+	rec := vh.NewRecorder("C28", "parallel_explicit_vs_generated", "exploration", parRaceRule,
+		"explicit ids are aimed with the harness' own knowledge of the live sequence (the largest id reported by a generator), not by reading the tracker",
+		"rule (3) is applied to statements that started after the explicit insert was acknowledged; an explicit id may legitimately equal an id generated concurrently on another branch",
+		"failures do not shrink; the first problems and the drawn parameters are printed")
+	defer rec.Write(t)
+	dir, cleanup := vh.ScratchDir(t, "c28r")
+	defer cleanup()
+	srv, err := vsql.StartServer(dir)
+	if err != nil {
+		vh.Inconclusive(t, "server start: %v", err)
+	}
+	defer srv.Stop()
+	admin := srv.Session(t, "admin", "")
+	defer admin.Close()
+	vh.Check(t, "race", 3, 8, func(rt *rapid.T) { parSeqRace(rt, srv, admin, rec, 40, 4000) })
+}
